@@ -9,8 +9,9 @@
   leaves the process in a state that is observably the one the single write leaves — same files,
   same bytes on standard output, same opener state, same success. `cli_encrypt_refines`: with the
   four steps of the translated `encrypt` read as segment writers, it returns exactly when
-  `Cli.execute` reaches `finish`, observably in the model's final state, and ends the process
-  exactly when the model exits 1.
+  `Cli.execute` reaches `finish`, observably in the model's final state, and otherwise ends the
+  process at the exit site of the first step whose write failed (and at no other fault), the model's
+  result being observably the state that step's segment writer stopped in, with status 1.
 -/
 import AgeModel.Cli
 import Proofs.CliKeygen
@@ -382,70 +383,113 @@ theorem execute_enc_segs (dest : Dest) (S : List Bytes) (w : World) :
     have h2 : (({ w := w } : Proc).writeNE dest S.flatten).2 = false := by rw [← hf.2]; exact hfalse
     simp only [execute, h2, Bool.not_false, if_true, Proc.result]
 
+/-- `result` sees only what can be observed -/
+theorem result_obs (p q : Proc) (c : Nat) (h : ObsEq p q) : ResObsEq (p.result c) (q.result c) :=
+  ⟨rfl, h.emitted, h.get⟩
+
+/-- the same in one piece, and with the state the model is left in when a write fails: observably the state the segment
+    writer stopped in, with status 1 -/
+theorem execute_enc_segs_res (dest : Dest) (S : List Bytes) (w : World) :
+    ResObsEq (execute dest (.enc S.flatten) w)
+      (if (writeSegs dest ({ w := w } : Proc) S).2 = true then (writeSegs dest ({ w := w } : Proc) S).1.finish dest
+       else (writeSegs dest ({ w := w } : Proc) S).1.result 1) := by
+  have hf := writeSegs_flatten dest S ({ w := w } : Proc) (segInv_fresh w)
+  cases hb : (writeSegs dest ({ w := w } : Proc) S).2 with
+  | true =>
+    have h2 : (({ w := w } : Proc).writeNE dest S.flatten).2 = true := by rw [← hf.2]; exact hb
+    simp only [execute, h2, Bool.not_true, Bool.false_eq_true, if_false, if_true]
+    exact finish_obs dest _ _ hf.1.symm'
+  | false =>
+    have h2 : (({ w := w } : Proc).writeNE dest S.flatten).2 = false := by rw [← hf.2]; exact hb
+    simp only [execute, h2, Bool.not_false, if_true, Bool.false_eq_true, if_false]
+    exact result_obs _ _ 1 hf.1.symm'
+
+/-- The translated `encrypt` against `Cli.execute`, outcome by outcome. `r1 … r4` are the segment writers of the four
+    writing steps, each from the state the one before left: `age.Encrypt` (`s1`), `io.Copy` (`s2`), the stream writer's
+    `Close` (`s3`), the armor writer's `Close` (`s4`, reached only with `-a`).
+    * it RETURNS only if every step that is run succeeded, with exactly the state the last of them left (`r4.1` armored,
+      `r3.1` otherwise), and the model's result is observably `finish` of that state;
+    * otherwise the fault is one of the four exit sites of `encrypt` and nothing else (no index fault, no other panic
+      number), and the site names the step: site 0 (`errorf` after `age.Encrypt`) exactly when `s1` could not be written,
+      site 1 (after `io.Copy`) when `s1` was and `s2` could not, site 2 (after the stream writer's `Close`) when `s1`,
+      `s2` were and `s3` could not, site 3 (after the armor writer's `Close`, only with `-a`) when `s1`, `s2`, `s3` were
+      and `s4` could not; in each case the model's result is observably the state in which that segment writer stopped
+      — everything written so far, up to and including what the destination took of the failing write — with status 1.
+    (`armor.NewWriter` writes nothing and reports no error in the source; `mNW` cannot fail.) -/
 theorem cli_encrypt_refines {ρ : Type} (eW : Go.Err) (dest : Dest) (s1 s2 s3 s4 : List Bytes) (recs : List ρ) (inp : Bytes)
     (armor : Bool) (w : World) :
     let ct := (s1 ++ s2 ++ s3 ++ (if armor then s4 else [])).flatten
+    let r1 := writeSegs dest ({ w := w } : Proc) s1
+    let r2 := writeSegs dest r1.1 s2
+    let r3 := writeSegs dest r2.1 s3
+    let r4 := writeSegs dest r3.1 s4
     match main_encrypt (0 : Nat) mNW (mEnc eW dest s1) (mCp eW dest s2) (mCl eW dest s3 s4) recs inp 0 armor ({ w := w } : Proc) with
-    | .ok p' => ResObsEq (execute dest (.enc ct) w) (p'.finish dest)
-    | .error _ => (execute dest (.enc ct) w).exit = 1 := by
+    | .ok p' =>
+      r1.2 = true ∧ r2.2 = true ∧ r3.2 = true ∧ (armor = true → r4.2 = true) ∧ p' = (if armor then r4.1 else r3.1) ∧
+        ResObsEq (execute dest (.enc ct) w) (p'.finish dest)
+    | .error f =>
+      (f = .panic 1000 ∧ r1.2 = false ∧ ResObsEq (execute dest (.enc ct) w) (r1.1.result 1)) ∨
+      (f = .panic 1001 ∧ r1.2 = true ∧ r2.2 = false ∧ ResObsEq (execute dest (.enc ct) w) (r2.1.result 1)) ∨
+      (f = .panic 1002 ∧ r1.2 = true ∧ r2.2 = true ∧ r3.2 = false ∧
+        ResObsEq (execute dest (.enc ct) w) (r3.1.result 1)) ∨
+      (f = .panic 1003 ∧ armor = true ∧ r1.2 = true ∧ r2.2 = true ∧ r3.2 = true ∧ r4.2 = false ∧
+        ResObsEq (execute dest (.enc ct) w) (r4.1.result 1)) := by
   intro ct
+  dsimp only
   rw [cli_encrypt_tie]
+  have e23 : (if (2 : Nat) = 1 then s4 else s3) = s3 := by simp
   cases armor with
   | false =>
-    have key := execute_enc_segs dest (s1 ++ s2 ++ s3) w
+    have key := execute_enc_segs_res dest (s1 ++ s2 ++ s3) w
     have hct : ct = (s1 ++ s2 ++ s3).flatten := by simp [ct]
     rw [hct]
     simp only [writeSegs_append] at key
     simp only [Bool.false_eq_true, if_false, encryptTail, mEnc, mCp, mCl, segStep, bind, Except.bind, pure,
-      Except.pure]
-    have e23 : (if (2 : Nat) = 1 then s4 else s3) = s3 := by simp
-    rw [e23]
-    generalize writeSegs dest { w := w } s1 = r1 at key ⊢
-    obtain ⟨p1, b1⟩ := r1
+      Except.pure, e23]
+    generalize writeSegs dest { w := w } s1 = x1 at key ⊢
+    obtain ⟨p1, b1⟩ := x1
     cases b1 with
     | false => simpa using key
     | true =>
       simp only [if_true] at key ⊢
-      generalize writeSegs dest p1 s2 = r2 at key ⊢
-      obtain ⟨p2, b2⟩ := r2
+      generalize writeSegs dest p1 s2 = x2 at key ⊢
+      obtain ⟨p2, b2⟩ := x2
       cases b2 with
       | false => simpa using key
       | true =>
         simp only [if_true] at key ⊢
-        generalize writeSegs dest p2 s3 = r3 at key ⊢
-        obtain ⟨p3, b3⟩ := r3
+        generalize writeSegs dest p2 s3 = x3 at key ⊢
+        obtain ⟨p3, b3⟩ := x3
         cases b3 with
         | false => simpa using key
         | true => simpa using key
   | true =>
-    have key := execute_enc_segs dest (s1 ++ s2 ++ s3 ++ s4) w
+    have key := execute_enc_segs_res dest (s1 ++ s2 ++ s3 ++ s4) w
     have hct : ct = (s1 ++ s2 ++ s3 ++ s4).flatten := by simp [ct]
     rw [hct]
     simp only [writeSegs_append] at key
     simp only [if_true, mNW, encryptTail, mEnc, mCp, mCl, segStep, bind, Except.bind, pure,
-      Except.pure]
-    have e23 : (if (2 : Nat) = 1 then s4 else s3) = s3 := by simp
-    rw [e23]
-    generalize writeSegs dest { w := w } s1 = r1 at key ⊢
-    obtain ⟨p1, b1⟩ := r1
+      Except.pure, e23]
+    generalize writeSegs dest { w := w } s1 = x1 at key ⊢
+    obtain ⟨p1, b1⟩ := x1
     cases b1 with
     | false => simpa using key
     | true =>
       simp only [if_true] at key ⊢
-      generalize writeSegs dest p1 s2 = r2 at key ⊢
-      obtain ⟨p2, b2⟩ := r2
+      generalize writeSegs dest p1 s2 = x2 at key ⊢
+      obtain ⟨p2, b2⟩ := x2
       cases b2 with
       | false => simpa using key
       | true =>
         simp only [if_true] at key ⊢
-        generalize writeSegs dest p2 s3 = r3 at key ⊢
-        obtain ⟨p3, b3⟩ := r3
+        generalize writeSegs dest p2 s3 = x3 at key ⊢
+        obtain ⟨p3, b3⟩ := x3
         cases b3 with
         | false => simpa using key
         | true =>
           simp only [if_true] at key ⊢
-          generalize writeSegs dest p3 s4 = r4 at key ⊢
-          obtain ⟨p4, b4⟩ := r4
+          generalize writeSegs dest p3 s4 = x4 at key ⊢
+          obtain ⟨p4, b4⟩ := x4
           cases b4 with
           | false => simpa using key
           | true => simpa using key
